@@ -17,17 +17,18 @@ import (
 )
 
 type c09scen struct {
-	ID      string `json:"id"`
-	Kind    string `json:"kind"` // returning | new
-	Before  int    `json:"ops_before_down"`
-	While   int    `json:"ops_while_down"`
-	After   int    `json:"ops_after_rejoin"`
-	ViaLead bool   `json:"then_lead_from_restored_node"`
-	Seed    uint64 `json:"seed"`
+	ID          string `json:"id"`
+	FirstMissed int    `json:"first_missed"` // size of the first insertion the stopped follower misses: 0 random, 1 a single event, 2 a bulk
+	Kind        string `json:"kind"`         // returning | new
+	Before      int    `json:"ops_before_down"`
+	While       int    `json:"ops_while_down"`
+	After       int    `json:"ops_after_rejoin"`
+	ViaLead     bool   `json:"then_lead_from_restored_node"`
+	Seed        uint64 `json:"seed"`
 }
 
 func RunC09(c *lib.Ctx) {
-	c.Rule = "case (a) = one 3-node cluster (TrailingLogs=0) where a follower is stopped (returning) or never existed (new), the log is compacted on the remaining nodes by forced raft snapshots while insertions continue, and the follower is (re)started so that it can only catch up by InstallSnapshot -> Restore -> WAL transfer; after bounded convergence (leader's index and version within 90 s, else inconclusive; repeated 3x = violation) the quiescent-point oracle of C06 runs (table dumps, hyper-cache invariant, every replica's proofs against the leader's snapshots), then leadership is moved to the restored node and its snapshots for further insertions are compared with the reference; case (b) = RaftNode.FetchSnapshot driven directly with (StartSeqNum, EndSeqNum, LastAppliedVersion) taken from real prefix states and shifted ones: the streamed batches are loaded into a store holding that prefix, and either an error was returned or the resulting store equals the reference state of a gap-free prefix; non-trivial (a) = the follower really was behind the compaction point, (b) = request that streams >= 1 batch or is refused; distinct by scenario shape."
+	c.Rule = "case (a) = one 3-node cluster (TrailingLogs=0) where a follower is stopped (returning; the first insertion it misses is a single event or a bulk, by scenario) or never existed (new), the log is compacted on the remaining nodes by forced raft snapshots while insertions continue, and the follower is (re)started so that it can only catch up by InstallSnapshot -> Restore -> WAL transfer; after bounded convergence (leader's index and version within 90 s, else inconclusive; repeated 3x = violation) the quiescent-point oracle of C06 runs (table dumps, hyper-cache invariant, every replica's proofs against the leader's snapshots), then leadership is moved to the restored node and its snapshots for further insertions are compared with the reference; case (b) = RaftNode.FetchSnapshot driven directly with (StartSeqNum, EndSeqNum, LastAppliedVersion) taken from real prefix states and shifted ones: the streamed batches are loaded into a store holding that prefix, and either an error was returned or the resulting store equals the reference state of a gap-free prefix; non-trivial (a) = the follower really was behind the compaction point, (b) = request that streams >= 1 batch or is refused; distinct by scenario shape."
 	c.Assume = []string{"convergence is restated as bounded progress (90 s after rejoin, faults stopped)", "state transfer is triggered by making the missing entries unavailable in the leader's raft log (forced snapshot, TrailingLogs=0)"}
 	r0 := c.Rand("scen")
 	n := c.Q(4, 24)
@@ -41,6 +42,14 @@ func RunC09(c *lib.Ctx) {
 		scens[i] = c09scen{ID: fmt.Sprintf("s%d", i), Kind: kind, Before: r.Range(2, 12), While: r.Range(4, 16), After: r.Range(3, 10), ViaLead: true, Seed: r.Uint64()}
 		if i%4 >= 2 {
 			scens[i].Before = r.Range(0, 2) // go down very early
+		}
+		if kind == "returning" {
+			// the boundary between what the follower holds and what it misses: a single event (version metadata
+			// {L, L+1}) or a bulk; the follower holds at least one event in the first case
+			scens[i].FirstMissed = 1 + (i/4)%2
+			if i%4 == 0 && scens[i].Before < 1 {
+				scens[i].Before = 1
+			}
 		}
 		if i == n-1 {
 			// boundary: a brand-new node is transferred a log that holds exactly one event, inserted alone
@@ -93,6 +102,7 @@ func runC09Scenario(c *lib.Ctx, sc c09scen, attempt int) (string, string) {
 	fail := func(key, what string) {
 		c.Violation("C09:"+key, fmt.Sprintf("scenario %s (%s follower, %d/%d/%d ops before/while/after): %s", sc.ID, sc.Kind, sc.Before, sc.While, sc.After, what), map[string]interface{}{"id": sc.ID, "scenario": sc})
 	}
+	forceSize := 0
 	load := func(n int) bool {
 		for k := 0; k < n; k++ {
 			ld := lc.WaitLeader(20 * time.Second)
@@ -103,7 +113,13 @@ func runC09Scenario(c *lib.Ctx, sc c09scen, attempt int) (string, string) {
 			if oneEvent && len(rl.Events) == 0 {
 				size = 1
 			}
-			if err := rl.add(ld, sc.ID, size, r.Bool()); err != nil {
+			bulk := r.Bool()
+			if forceSize == 1 {
+				size, bulk = 1, false
+			} else if forceSize == 2 {
+				size, bulk = r.Pick(2, 5, 13), true
+			}
+			if err := rl.add(ld, sc.ID, size, bulk); err != nil {
 				if u, ok := err.(*unknownOutcome); ok {
 					if _, rerr := rl.resolve(lc, u); rerr != nil {
 						return false
@@ -113,6 +129,7 @@ func runC09Scenario(c *lib.Ctx, sc c09scen, attempt int) (string, string) {
 				fail("version-sequence", err.Error())
 				return false
 			}
+			forceSize = 0
 		}
 		return true
 	}
@@ -132,6 +149,7 @@ func runC09Scenario(c *lib.Ctx, sc c09scen, attempt int) (string, string) {
 		}
 		lc.StopGuarded(victim)
 	}
+	forceSize = sc.FirstMissed
 	if !load(sc.While) {
 		return "inconclusive", "load while down"
 	}
@@ -204,6 +222,7 @@ func runC09Scenario(c *lib.Ctx, sc c09scen, attempt int) (string, string) {
 			}
 			if other != "" && nd.IsLeader() {
 				lc.StopGuarded(other)
+				forceSize = 1 + int(r.Uint64()%2)
 				if load(r.Range(3, 8)) {
 					for _, id := range lc.ids(true) {
 						x := lc.Nodes[id]
@@ -226,7 +245,7 @@ func runC09Scenario(c *lib.Ctx, sc c09scen, attempt int) (string, string) {
 			c.Count("leadership_transfer_to_restored_node_failed", 1)
 		}
 	}
-	c.Case(fmt.Sprintf("%s/before%d/while%d", sc.Kind, minInt(sc.Before, 3), sc.While/4), true)
+	c.Case(fmt.Sprintf("%s/before%d/while%d/firstmissed%d", sc.Kind, minInt(sc.Before, 3), sc.While/4, sc.FirstMissed), true)
 	return "held", ""
 }
 
